@@ -75,6 +75,11 @@ CLAIMED["C15"] = ("ovf-system", "fault_enumeration",
   "Each case starts a fresh client and server, runs a warm-up flow, records the idle descriptor baseline of both processes (/proc/<pid>/fd), then runs a batch of 1..10 (quick) / 1..32 (thorough) flows, each moving bytes in both directions and then ending in one way: application closes (clean / with data in flight towards it / while the target keeps its own socket open), target closes (same three), application resets, target resets, the client-server link is cut by a tap, the target refuses, the target name does not resolve. Oracle: a clean close delivers everything the closer wrote (byte-exact) and the other side then reads end-of-stream; for abortive endings the other side observes end-of-stream or a reset within the deadline; after the batch, with lingering peer sockets still held open by the harness, the descriptor counts of client and server return to the baseline. Every (transport x ending) pair is exercised in every run.",
   "Trusted: /proc descriptor counts; 12 s deadline for 'promptly' and 20 s for the baseline, each confirmed on two more fresh clusters before a violation is reported.", "DESIGN.md 5/C15")
 
+CLAIMED["C16"] = ("ovf-system", "exploration",
+  "configuration-space testing of the real binaries' start-up: exhaustive over every documented mode and cipher name (sockets observed in /proc, served by real and reference peers), generated near-miss / random names and wrong-length keys (proptest) that must be refused",
+  "listeners: every documented Shadowsocks server mode (tcp, udp, tcp_and_udp, quic, tcp_and_quic, absent), VMess/Trojan with and without a quic section, and every client mode are started; the sockets held on the configured port must be exactly the documented set and must serve (TCP and QUIC through a real client's byte-exact echo, UDP through a reference datagram client). names: for each documented cipher name (7 + alias for Shadowsocks, 2 + alias for VMess, with and without a user table) a reference client configured only with the same name and password string must be served by the real server over TCP and over UDP (classic ciphers: ordinary password, EVP_BytesToKey on both paths), and what the real client sends must decode at a reference server. refusals: generated undocumented cipher / protocol / mode strings (case, '_' vs '-', truncation, one changed or added character, related names, random), 2022 keys whose decoded length is 0..64 bytes but not the cipher's (server key, identity key, user key, on server and client), server quic modes without a quic section, missing certificate files: the process must end or stay without any socket on its port, having printed an error, never panic.",
+  "Trusted: /proc socket tables; the reference implementation as the definition of 'documented algorithm and key'. Exit status 0 after a logged error counts as a refusal. VMess with a cipher name outside its README column is not asserted.", "DESIGN.md 5/C16")
+
 PENDING = {}
 
 def main():
